@@ -373,12 +373,15 @@ func checkC12(c *Ctx, r *Report) {
 					if !guardedByTruth(f, h, okv, true) {
 						problems = append(problems, "decrement at "+c.InstrPos(h)+" also runs when the key was not present")
 					}
-					// no decrement without the delete
-					if !instrDominates(d, h) && len(exitsAvoiding(h, isInstr(d), nil)) > 0 {
+				}
+				pr := pruneTruth(f, okv, true)
+				for _, h := range append(append([]*ssa.Call{}, decE...), decS...) {
+					// no decrement without the delete: on the found side (the only side a decrement runs on) every way to
+					// the decrement passes the delete, or every way on from it does
+					if !instrDominates(d, h) && !mustPassBefore(f, h, isInstr(d), pr) && len(exitsAvoiding(h, isInstr(d), pr)) > 0 {
 						problems = append(problems, "decrement at "+c.InstrPos(h)+" can happen without the map delete")
 					}
 				}
-				pr := pruneTruth(f, okv, true)
 				if ex := exitsAvoiding(d, anyOf(decE), pr); len(ex) > 0 {
 					problems = append(problems, "path from delete to "+c.InstrPos(ex[0])+" skips decrementCacheEntries")
 				}
